@@ -215,9 +215,13 @@ class Recorder:
             sp = st['svc']
             gone = self.gone_infos.get(sp['sid'])
             if (st.get('same_object') and gone is not None
-                    and all(gone[1][k] == sp[k] for k in ('type', 'name', 'host', 'addrs', 'txt'))):
-                # the application registers the object it had unregistered again, after changing port and / or TTLs on it
+                    and all(gone[1][k] == sp[k] for k in ('type', 'host', 'addrs', 'txt'))
+                    and (gone[1]['name'] == sp['name'] or st.get('new_name'))):
+                # the application registers the object it had unregistered again, after changing port and / or TTLs on it -- or its
+                # name (ServiceInfo.name is assignable; the library itself assigns it when it renames)
                 info = gone[0]
+                if gone[1]['name'] != sp['name']:
+                    info.name = sp['name']
                 info.port = sp['port']
                 info.host_ttl = sp['host_ttl']
                 info.other_ttl = sp['other_ttl']
@@ -1111,9 +1115,13 @@ def gen_c09(rng: random.Random, sid: str, thorough: bool = False) -> dict:
         # registered again: it has to come up under the next free name with a complete record set of that name
         steps.append({'op': 'unreg', 'sid': sp['sid'], 'fresh': rng.random() < 0.35})
         end += 400
+        new_name = rng.random() < 0.4 and sp['host'] is not None
+        if new_name:
+            # ... under another name, which is taken as well
+            sp = dict(sp, name='Other Name.' + sp['name'].partition('.')[2])
         steps += [{'op': 'at', 't': end}, {'op': 'conflict', 'svc': sp, 'k': 0, 'exact': True, 'ttl': 4500}]
         end += rng.choice([700, 1100, 2000])
-        steps += [{'op': 'at', 't': end}, {'op': 'reg_bg', 'svc': sp, 'coop': False, 'rename': True, 'exact': [0],
+        steps += [{'op': 'at', 't': end}, {'op': 'reg_bg', 'svc': sp, 'coop': False, 'rename': True, 'exact': [0], 'new_name': new_name,
                                           # (an object whose host name was defaulted at its first registration keeps that name: with a
                                           #  defaulted host name the application registers a fresh description)
                                           'same_object': rng.random() < 0.7 and sp['host'] is not None}]
